@@ -11,7 +11,7 @@ from sim.harness import Request
 from sim.loop import Sim
 from sim.oracle import Violation, check_invocations, check_response, value_at
 from sim.scenario import build_scenario
-from sim.tape import Tape
+from sim.tape import ScriptTape, Tape, next_script
 
 from .common import base_evidence, bump, digest_of, pair_hash
 
@@ -291,19 +291,16 @@ def run_unit(seed=None, unit=None, tier="quick", stats=None):
             }
         sim.close()
     # permutation sweep: for tiny scenarios walk *all* sequences of "which pending external
-    # completes next" (one completion per idle point), bounded at 120 runs; a policy inside the
+    # completes next" (one completion per idle point; exact odometer over a ScriptTape), bounded at
+    # 240 runs, for scenarios with 2-7 externals; also judged for mutation seriality; a policy inside the
     # seeded search, reported separately, not a claim about anything larger
-    if (unit is None and focus is None and seed[2] % 3 == 0 and sched_tapes
-            and 2 <= max_ext <= 5 and not violations):
+    if (unit is None and seed[2] % 3 == 0 and sched_tapes
+            and 2 <= max_ext <= 7 and not violations):
         swept = 0
         picks = []
-        while swept < 120:
+        while swept < 240:
             # mode=choice, fire_den=1 (no extra completions), immediate delivery, alloc=fresh
-            vals = [0, 4, 0, 0, 0]
-            for p in picks:
-                vals += [p, 0]
-            st = Tape(values=vals)
-            st.trace = []
+            st = ScriptTape([0, 4, 0, 0, 0], picks)
             sim, reqs, results, status, al = run_async(scn, st)
             swept += 1
             bad = status == "stepcap"
@@ -314,6 +311,9 @@ def run_unit(seed=None, unit=None, tier="quick", stats=None):
                     continue
                 rv = check_response(PROP, res[0], rs.result, who="async")
                 rv += check_invocations(PROP, reqs[i], rs.result, res[0].get("data"), who="async")
+                ms = mutation_seriality(sim, reqs[i], rs, res[0].get("data"))
+                if ms is not None:
+                    rv.append(ms)
                 if rv:
                     for v in rv:
                         v.fingerprint["sweep"] = True
@@ -321,18 +321,12 @@ def run_unit(seed=None, unit=None, tier="quick", stats=None):
                     violations += rv
                     sched_tapes.append(st)
             sim.close()
-            ns = [n_ for (lab, n_, _v) in st.trace if lab == "idle_pick"]
-            got = [v_ for (lab, _n, v_) in st.trace if lab == "idle_pick"]
             if bad or violations:
                 break
-            # odometer: next sequence of picks given the branching just observed
-            k = len(ns) - 1
-            while k >= 0 and got[k] + 1 >= ns[k]:
-                k -= 1
-            if k < 0:
+            picks = next_script(st.trace)
+            if picks is None:
                 bump(stats, "probes", "permutation_sweeps_completed")
                 break
-            picks = got[:k] + [got[k] + 1]
         bump(stats, "counts", "async_execs", swept * len(scn.requests))
         bump(stats, "probes", "permutation_sweep_runs", swept)
     if len(orders) >= 3:
